@@ -1,6 +1,7 @@
 package main
 
 import (
+	"verif/props/c03"
 	"verif/props/c04"
 	"verif/props/c06"
 	"verif/props/c11"
@@ -8,6 +9,7 @@ import (
 )
 
 func init() {
+	props["C03"] = prop{c03.Run, c03.Replay}
 	props["C04"] = prop{c04.Run, c04.Replay}
 	props["C06"] = prop{c06.Run, c06.Replay}
 	props["C11"] = prop{c11.Run, c11.Replay}
